@@ -1,6 +1,7 @@
 package main
 
 import (
+	"golang.org/x/tools/go/packages"
 	"fmt"
 	"math/bits"
 	"go/types"
@@ -257,6 +258,11 @@ func (g *Global) instrWrites(in ssa.Instruction, out map[string]bool, skipFresh 
 				return
 			}
 			if c.IsInvoke() && c.Method.Pkg() != nil && isPurePkg(c.Method.Pkg().Path()) {
+				return
+			}
+			if callee != nil && callee.Blocks != nil && !g.pkgReflective(fnPkgPath(callee)) {
+				// library code with bodies that cannot reach reflect/unsafe (other than through
+				// the trusted-pure packages): its own stores, already in its frame, are all it does
 				return
 			}
 			for _, a := range c.Args {
@@ -526,4 +532,40 @@ func (g *Global) siteFrame(site ssa.CallInstruction) map[string]bool {
 		}
 	}
 	return out
+}
+
+// pkgReflective: the package, or a package it imports outside the trusted-pure list,
+// imports reflect (the way a callee writes through a boxed pointer it was handed).
+func (g *Global) pkgReflective(path string) bool {
+	if g.reflective == nil {
+		g.reflective = map[string]bool{}
+		g.pkgByPath = map[string]*packages.Package{}
+		packages.Visit(g.pkgs, nil, func(p *packages.Package) { g.pkgByPath[p.PkgPath] = p })
+	}
+	if v, ok := g.reflective[path]; ok {
+		return v
+	}
+	if path == "reflect" {
+		g.reflective[path] = true
+		return true
+	}
+	if isPurePkg(path) {
+		g.reflective[path] = false
+		return false
+	}
+	g.reflective[path] = false // cycle guard
+	p := g.pkgByPath[path]
+	if p == nil {
+		g.reflective[path] = true
+		return true
+	}
+	r := false
+	for ip := range p.Imports {
+		if g.pkgReflective(ip) {
+			r = true
+			break
+		}
+	}
+	g.reflective[path] = r
+	return r
 }
